@@ -148,3 +148,25 @@ Proof. exact C10_cast_shapes. Qed.
 
 Print Assumptions C10_rule_spec_fields. Print Assumptions C10_rule_spec_builds_api_rule. Print Assumptions C10_doc_one_normal_form.
 Print Assumptions C10_doc_normalisation_idempotent. Print Assumptions C10_cast_block_shapes.
+
+(* ---- rule specs whose condition has NESTED data-path arguments (NestedRuleIO.rule_n_from_spec; NestedSpell.ntree_spec): the parsed rule
+   is the rule the API builds (== , and the same rule_test_n on every document and copy), whatever the order of the entries and
+   whatever else the mapping holds; the first failing field wins in the order path, condition, doc, cast. *)
+From Valida Require Import NestedArgs NestedIO NestedRuleIO NestedSpell RunNestedRule.
+From Valida.Proofs Require Import C14Proof C12Proof C11PathProof C13PathProof C11NestedProof C13NestedProof C09NestedProof C10NestedProof.
+
+Theorem C10_rule_spec_with_nested_path_arguments : forall d ts nas t casts g doc,
+  forallb simple_pterm ts = true -> tree_in_c11n nas t ->
+  dict_look (VStr "path") d = Some (VList (map sp_spec ts)) ->
+  dict_look (VStr "condition") d = Some (ntree_spec nas t) ->
+  norm_doc (dict_look (VStr "doc") d) = Ok doc ->
+  parse_casts X (dict_look (VStr "cast") d) = Ok (casts, g) ->
+  exists p r r',
+    mk_path T idlit (api_path ts) = Ok p /\
+    r = c13n_rule p nas t casts /\ r' = rule_n_back nas t r /\
+    rule_n_from_spec (VDict d) = Ok (r', {| rx_doc := doc; rx_cast_given := g |}) /\
+    mk_rule_n (c13n_term (api_path ts) nas t casts) = Ok r /\
+    (casts_wf casts -> rule_n_eqb r' r g g = true) /\
+    (forall data copy, rule_test_n r' data copy = rule_test_n r data copy).
+Proof. exact C10N_rule_spec. Qed.
+Print Assumptions C10_rule_spec_with_nested_path_arguments.
